@@ -96,10 +96,21 @@ Section Auth.
     let sponsor_ok := match psig with None => true | Some sg => verify_data_signature sponsor d sg end in
     sender_ok && sponsor_ok.
 
-  (** [AccountTransactionV1::verify_transaction_signature]: the header's [sponsor] field takes no
-      part in the decision (only in the digest [d]); it is an argument here so that the theorems can
-      talk about it. *)
+  (** [AccountTransactionV1::verify_transaction_signature] (since /repo commit 12eb729ed): a transaction
+      whose header names a sponsor ([header_sponsor <> None]) but that carries no sponsor signature is
+      rejected before anything else; otherwise the decision is [verify_v1] on the sign hash [d].
+      (A sponsor signature on a transaction whose header names NO sponsor is still checked against the
+      sponsor access structure the caller passes.) *)
   Definition verify_tx_v1 (header_sponsor : option N) (sender sponsor : access) (d : DATA)
+             (ssig : sig_map) (psig : option sig_map) : bool :=
+    match header_sponsor, psig with
+    | Some _, None => false
+    | _, _ => verify_v1 sender sponsor d ssig psig
+    end.
+
+  (** the function as it was BEFORE commit 12eb729ed (no guard; the header's sponsor field took no part) -
+      kept so that a regression is recognised: see [prefix_verify_tx_v1_refuted] *)
+  Definition verify_tx_v1_prefix (header_sponsor : option N) (sender sponsor : access) (d : DATA)
              (ssig : sig_map) (psig : option sig_map) : bool :=
     verify_v1 sender sponsor d ssig psig.
 
@@ -208,6 +219,7 @@ Arguments verify_creds {PK SIG DATA}.
 Arguments verify_data_signature {PK SIG DATA}.
 Arguments verify_v1 {PK SIG DATA}.
 Arguments verify_tx_v1 {PK SIG DATA}.
+Arguments verify_tx_v1_prefix {PK SIG DATA}.
 Arguments sign_cred {SIG DATA SK}.
 Arguments sign_map {SIG DATA SK}.
 Arguments mkCredData {SK}.
@@ -234,6 +246,9 @@ Definition verify_bits (a : access unit) (sm : amap (amap bool)) : bool :=
   verify_data_signature (fun _ _ (b : bool) => b) a tt sm.
 Definition verify_v1_bits (sender sponsor : access unit) (ssig : amap (amap bool)) (psig : option (amap (amap bool))) : bool :=
   verify_v1 (fun _ _ (b : bool) => b) sender sponsor tt ssig psig.
+Definition verify_tx_v1_bits (header_sponsor : bool) (sender sponsor : access unit) (ssig : amap (amap bool))
+           (psig : option (amap (amap bool))) : bool :=
+  verify_tx_v1 (fun _ _ (b : bool) => b) (if header_sponsor then Some 0 else None) sender sponsor tt ssig psig.
 Definition update_verify_bits (nkeys : N) (acc : access_structure) (sigs : amap bool) : bool :=
   update_verify (fun _ _ (b : bool) => b) (repeat tt (N.to_nat nkeys)) acc tt sigs.
 (** keys are represented by small identifiers ([N]); a key pair is its identifier *)
